@@ -198,6 +198,25 @@ pub fn check(sc: &Scenario, ex: &mut Exec) -> (Verdict, Option<String>) {
     let mut key_idx_o: Vec<usize> = q.keys.iter().filter_map(|k| orig_s.col(&k.alias)).collect();
     let mut key_idx_d: Vec<usize> = q.keys.iter().filter_map(|k| dp.col(&k.alias)).collect();
     let mut violations = vec![];
+    // expected reading of an empty group (through the outer projection if any)
+    let zero_row: Option<Vec<Cell>> = match &q.outer {
+        None => None,
+        Some(o) => {
+            let inner: Vec<String> = q
+                .keys
+                .iter()
+                .map(|k| format!("NULL AS {}", k.alias))
+                .chain(q.aggs.iter().map(|a| format!("0 AS {}", a.alias)))
+                .collect();
+            let items: Vec<String> = o.iter().map(|(e, a)| format!("{} AS {}", e, a)).collect();
+            let sql = format!("SELECT {} FROM (SELECT {}) AS sub", items.join(", "), inner.join(", "));
+            ex.query(&mut eng, "zero_row", &sql, &plan).ok().and_then(|(rs, _)| rs.rows.first().cloned().map(|r| {
+                // reorder to dp's columns
+                dp.columns.iter().map(|c| rs.col(c).map(|i| r[i].clone()).unwrap_or(Cell::Null)).collect()
+            }))
+        }
+    };
+
     // output keys that are not unique (a SELECT alias shadowing the grouping column): rows are
     // matched as a multiset - within one key value the rows of each side are ranked by their
     // aggregate values and the rank joins the key; surplus DP rows that read zero (declared public
@@ -218,7 +237,12 @@ pub fn check(sc: &Scenario, ex: &mut Exec) -> (Verdict, Option<String>) {
                     let want = *c.get(&k).unwrap_or(&0);
                     if want > 0 {
                         while rows.len() > want {
-                            match rows.iter().position(|r| vals(r).iter().all(|v| *v == 0.0 || *v == f64::NEG_INFINITY)) {
+                            // a row that reads what an empty group reads (through the outer projection)
+                            let reads_zero = |r: &Vec<Cell>| aidx.iter().all(|i| match num(&r[*i]) {
+                                None => true,
+                                Some(v) => close(v, zero_of(&zero_row, *i), 0.0, 1e-9),
+                            });
+                            match rows.iter().position(|r| reads_zero(r)) {
                                 Some(i) => {
                                     rows.remove(i);
                                 }
@@ -256,25 +280,6 @@ pub fn check(sc: &Scenario, ex: &mut Exec) -> (Verdict, Option<String>) {
     let go = by_key(&orig_s, &key_idx_o);
     let gp = by_key(&orig_p, &key_idx_o);
     let gd = by_key(&dp, &key_idx_d);
-
-    // expected reading of an empty group (through the outer projection if any)
-    let zero_row: Option<Vec<Cell>> = match &q.outer {
-        None => None,
-        Some(o) => {
-            let inner: Vec<String> = q
-                .keys
-                .iter()
-                .map(|k| format!("NULL AS {}", k.alias))
-                .chain(q.aggs.iter().map(|a| format!("0 AS {}", a.alias)))
-                .collect();
-            let items: Vec<String> = o.iter().map(|(e, a)| format!("{} AS {}", e, a)).collect();
-            let sql = format!("SELECT {} FROM (SELECT {}) AS sub", items.join(", "), inner.join(", "));
-            ex.query(&mut eng, "zero_row", &sql, &plan).ok().and_then(|(rs, _)| rs.rows.first().cloned().map(|r| {
-                // reorder to dp's columns
-                dp.columns.iter().map(|c| rs.col(c).map(|i| r[i].clone()).unwrap_or(Cell::Null)).collect()
-            }))
-        }
-    };
 
     // 1. every group of the original appears
     for (k, _) in &go {
